@@ -76,6 +76,61 @@ theorem fundamental_units_interconvert_in {c₁ : Conv Rat} (hs : ShippedState c
     (Nat.lt_of_lt_of_le hul f.ext.len) (Nat.lt_of_lt_of_le hvl f.ext.len) hsf htf
     (f.ext.dimOfUnit hul) ((f.ext.dimOfUnit hvl).trans hd.symm) hw hnn hfac hnum hneg hreach
 
+theorem simple_conversions_near_in {c₁ c' : Conv Rat} (hs : ShippedState c₁) {K : List Dim} (hK : keysOkB K = true)
+    {q r : Qty Rat} {t : UId} {plan : List (Rough Rat)}
+    (hq : q.unit < c₁.st.units.length) (ht : t < c₁.st.units.length) (hz : Zt (c₁.st.dimOfUnit q.unit))
+    (hfs : ∀ f ∈ (c₁.st.unit! q.unit).factors, factorOkB K c₁.st σS f = true ∧ Zt (c₁.st.dimOfUnit f.1))
+    (hft : ∀ f ∈ (c₁.st.unit! t).factors, factorOkB K c₁.st σS f = true)
+    (hspec : matchSpec (splat c₁.st t).byComplexFirst (splat c₁.st q.unit) (splat c₁.st t) [] = some ([], [], plan))
+    (h : CM.exec (convert q t) c₁ = (.ok r, c')) :
+    r.unit = t ∧ ∃ (X : Rat) (W : Nat) (P : Plan Rat),
+      CM.exec (planConversion q.unit t) { c₁ with st := (c₁.st.unprefixedUnit q.unit).1 } = (.ok P, c') ∧
+      W ≤ Gd c₁.st q.unit * planHops P ∧
+      r.mag.val * unitSz σS c₁.st t = q.mag.val * X ∧ Near lbQ ubQ W X (unitSz σS c₁.st q.unit) := by
+  have gQ : GraphNear lbQ ubQ σS c₁ :=
+    hs.near.weaken σS_pos (by norm_num [lbQ]) (by norm_num [lbQ, lbS]) (by norm_num [ubS]) (by norm_num [ubQ, ubS])
+  obtain ⟨hK1, hKw⟩ := keysOkB_sound hK
+  have hz1 : Zt (c₁.st.dimOfUnit c₁.st.one) := by rw [hs.near.inv.1.oneNum]; exact zt_number _
+  exact convert_simple_near rootClosed_Zt bndQ symQ σS_pos hK1 hKw gQ hs.wf (shippedState_offRef hs) hq ht hz hz1
+    (fun f hf => by
+      obtain ⟨a, b, c⟩ := factorOkB_sound (hfs f hf).1
+      exact ⟨a, b, c, (hfs f hf).2⟩)
+    (fun f hf => factorOkB_sound (hft f hf)) hspec h
+
+theorem simple_only_not_found_in {c₁ : Conv Rat} (hs : ShippedState c₁) {K : List Dim} (hK : keysOkB K = true)
+    {q : Qty Rat} {t : UId} {plan : List (Rough Rat)}
+    (hq : q.unit < c₁.st.units.length) (ht : t < c₁.st.units.length)
+    (hfs : ∀ f ∈ (c₁.st.unit! q.unit).factors, factorOkB K c₁.st σS f = true)
+    (hft : ∀ f ∈ (c₁.st.unit! t).factors, factorOkB K c₁.st σS f = true)
+    (hspec : matchSpec (splat c₁.st t).byComplexFirst (splat c₁.st q.unit) (splat c₁.st t) [] = some ([], [], plan))
+    (hdims : ∀ r ∈ plan, c₁.st.dimOfUnit r.start = c₁.st.dimOfUnit r.stop) :
+    ∃ res c', CM.exec (convert q t) c₁ = (res, c') ∧ ((∃ r, res = .ok r) ∨ res = .error .notFound) := by
+  obtain ⟨hK1, hKw⟩ := keysOkB_sound hK
+  exact convert_simple_totalN bnd σS_pos hs.near hs.wf hq ht
+    ⟨hK1, hKw, fun f hf => factorOkB_sound (hfs f hf), fun f hf => factorOkB_sound (hft f hf), hspec⟩ hdims
+
+theorem simple_units_interconvert_in {c₁ : Conv Rat} (hs : ShippedState c₁) {K : List Dim} (hK : keysOkB K = true)
+    {q : Qty Rat} {t : UId} {plan : List (Rough Rat)}
+    (hq : q.unit < c₁.st.units.length) (ht : t < c₁.st.units.length)
+    (hdqt : c₁.st.dimOfUnit q.unit = c₁.st.dimOfUnit t)
+    (hfs : ∀ f ∈ (c₁.st.unit! q.unit).factors, factorOkB K c₁.st σS f = true)
+    (hft : ∀ f ∈ (c₁.st.unit! t).factors, factorOkB K c₁.st σS f = true)
+    (hspec : matchSpec (splat c₁.st t).byComplexFirst (splat c₁.st q.unit) (splat c₁.st t) [] = some ([], [], plan))
+    (hnodes : ∀ r ∈ plan, r.start ∈ fundNodes ∧ r.stop ∈ fundNodes ∧ init.dimOfUnit r.start = init.dimOfUnit r.stop) :
+    ∃ r c', CM.exec (convert q t) c₁ = (.ok r, c') := by
+  obtain ⟨g, w, f⟩ := hs
+  obtain ⟨hK1, hKw⟩ := keysOkB_sound hK
+  refine convert_simple_connected bnd σS_pos g w hq ht
+    ⟨hK1, hKw, fun f hf => factorOkB_sound (hfs f hf), fun f hf => factorOkB_sound (hft f hf), hspec⟩ hdqt ?_
+  intro r hr
+  obtain ⟨h1, h2, h3⟩ := hnodes r hr
+  obtain ⟨g1, l1⟩ := fund_gcd h1
+  obtain ⟨_, l2⟩ := fund_gcd h2
+  refine ⟨?_, ?_, ?_⟩
+  · rw [f.ext.dimOfUnit l1, f.ext.dimOfUnit l2]; exact h3
+  · rw [f.ext.dimOfUnit l1]; exact g1
+  · rw [f.ratios]; exact fund_reaches h1 h2 h3
+
 /-- **In every state reached by any valid history of queries and unit operations on the shipped registries**:
     temperatures convert by the affine definitions for every prefix and magnitude (and the state that leaves is
     again such a state); units of one fundamental dimension linked by declarations convert; the path search returns
